@@ -3,6 +3,15 @@ open Bbm_model
 open Bbm_util
 
 (* ---------- commands ---------- *)
+let unroll_field (t : tape) : string =
+  let explicit = List.for_all (fun (_, n) -> n_fits n && int_of_n n < 64) (t.lspan @ t.rspan) in
+  let l = field_of_nlist (unroll_span t.lspan) and r = field_of_nlist (unroll_span t.rspan) in
+  if explicit then l ^ "/" ^ r
+  else begin
+    let len sp = List.fold_left (fun a (_, n) -> a + int_of_n n) 0 sp in
+    "H" ^ string_of_int (len t.lspan) ^ ":" ^ fnv l ^ "/" ^ string_of_int (len t.rspan) ^ ":" ^ fnv r
+  end
+
 let tape_record (prev_sig : signature) (t : tape) (stepped : n) : string =
   let (cl, cr) = counts t in
   let (ll, rl) = span_lens t in
@@ -13,11 +22,12 @@ let tape_record (prev_sig : signature) (t : tape) (stepped : n) : string =
     string_of_n ll ^ "," ^ string_of_n rl;
     field_of_sig (tape_sig t); b2s (sig_compatible t prev_sig);
     string_of_str (show_tape t);
-    field_of_nlist (unroll_span t.lspan) ^ "/" ^ field_of_nlist (unroll_span t.rspan) ]
+    unroll_field t ]
 
 let unroll_small (t : tape) : bool =
-  (* only unroll when counts are small *)
-  List.for_all (fun (_, n) -> n_fits n && int_of_n n < 64) (t.lspan @ t.rspan)
+  (* explicit up to 63 cells per block; hashed up to 100000 cells in all (same rule as the harness) *)
+  List.for_all (fun (_, n) -> n_fits n && int_of_n n <= 100000) (t.lspan @ t.rspan)
+  && List.fold_left (fun a (_, n) -> a + int_of_n n) 0 (t.lspan @ t.rspan) <= 100000
 
 let tape_record_safe prev_sig t stepped =
   if unroll_small t then tape_record prev_sig t stepped
@@ -170,8 +180,7 @@ let run_ops tape_f ops_f =
 
 let cmd_tapeeq ta oa tb ob =
   let a = run_ops ta oa and b = run_ops tb ob in
-  let un t = if unroll_small t
-    then field_of_nlist (unroll_span t.lspan) ^ "/" ^ field_of_nlist (unroll_span t.rspan) else "big" in
+  let un t = if unroll_small t then unroll_field t else "big" in
   (* a derived Hash agrees with derived == on equal values: the model answers the hash field with == *)
   b2s (tape_eqb a b) ^ "|" ^ b2s (tape_eqb a b) ^ "|" ^ field_of_tape a ^ " " ^ un a ^ "|" ^ field_of_tape b ^ " " ^ un b
 
